@@ -65,6 +65,11 @@ void  g_free(void *p);
 void  g_free_all(void);
 const char *g_describe(const void *addr, char *buf, size_t n);
 
+/* ---- forked cases: run fn(arg) in a child process (fault isolation without restarting the shard).
+ * The child shares the log; its counters are lost, so fn reports through its return value (0..127). ---- */
+typedef struct { int status; int faulted; int sig; int nullpage; char site[96]; } mon_child_t;
+int mon_fork_run(int (*fn)(void *), void *arg, mon_child_t *out);
+
 /* combinations: first/next k-subset of [0,n) in lexicographic order */
 void comb_first(int *c, int k);
 int  comb_next(int *c, int k, int n);
